@@ -10,7 +10,8 @@ PID = "C11"
 RULE = ("Generated programs (the C02 generator: all instruction forms, data directives, labels, EQU, any origin or none) "
         "optionally padded by an RMB/FCB block to sizes 300 / 3000 / 9000 or to an exact image length on a tape-block, "
         "sector or granule edge (254..257, 509..511, 2290..2309, 4596..4611, 6902..6912), or to 20-64 KB by a table of "
-        "distinct words (enumerated at 22-28 granules), with or "
+        "distinct words (enumerated at 22-28 granules); enumerated programs that begin with data and restate the current "
+        "location with a second ORG before the first instruction (the load address stays the first ORG); with or "
         "without NAM (1-12 letters/digits in either case), with or without --name, with END / END label / no END, "
         "are assembled by a real assembler.py process with each non-empty subset of {--to_bin, --to_cas, --to_dsk}. "
         "Oracle: reference image = in-process Program on the same lines; .bin == image byte for byte; the independent "
@@ -23,7 +24,7 @@ ASSUMPTIONS = [
     "the in-process assembly of the same lines is the reference image (its correctness is C01-C05's subject)",
     "vlib/casref.py and vlib/dskref.py read the outputs",
 ]
-HEALTH = {"nam": 0.12, "cli_name_only": 0.06, "no_name": 0.02, "multi_switch": 0.12, "edge_length": 0.06}
+HEALTH = {"nam": 0.12, "cli_name_only": 0.06, "no_name": 0.02, "multi_switch": 0.12, "edge_length": 0.06, "org_restated_after_data": 20}
 EXHAUSTIVE = {"quick": ["images of 50600..64000 bytes (22-28 granules) x {--to_dsk, all three switches}"], "thorough": ["as quick"]}
 
 # image lengths on the container formats' edges: tape block (255), disk sector (256) and granule (2304) with the
@@ -46,6 +47,21 @@ def enumerated(tier, seed):
     for bulk in (50600, 50670, 50680, 52480, 57000, 64000):
         for sw in (["dsk"], ["bin", "cas", "dsk"]):
             yield dict(prog=tiny, nam="BIGPROG", cli_name=None, nam_pos=0, bulk=bulk, target_len=None, switches=sw, end="plain")
+    # a program that starts with data and restates the current location with an ORG before its first instruction: the
+    # image still starts at the first ORG, and that is the load address
+    L = proggen.lit
+    datas = [[{"lab": "TBL", "k": "fcb", "vals": [L(1), L(2), L(3), L(4)]}, {"lab": "", "k": "fdb", "vals": [L(0x1234), L(0xFFFF)]},
+              {"lab": "MSG", "k": "fcc", "delim": "/", "text": "hi"}],
+             [{"lab": "BUF", "k": "rmb", "val": L(16)}],
+             [{"lab": "", "k": "fdb", "vals": [L(7)]}]]
+    for org in (0x0020, 0x3000, 0xE000):
+        for data in datas:
+            n = sum(proggen.size_bounds(d)[0] for d in data)
+            stmts = [{"lab": "", "k": "org", "addr": org}] + [dict(d) for d in data] + [
+                {"lab": "", "k": "org", "addr": org + n}, {"lab": "START", "k": "imm8", "mn": "LDA", "val": L(1)}, {"lab": "", "k": "inh", "mn": "RTS"}]
+            for sw in (["cas"], ["dsk"], ["bin", "cas", "dsk"]):
+                for end in ("none", "label"):
+                    yield dict(prog={"org": org, "stmts": stmts}, nam="DATAORG", cli_name=None, nam_pos=0, bulk=0, target_len=None, switches=sw, end=end, org_here=True)
 
 
 _big_case = st.fixed_dictionaries(dict(
@@ -129,6 +145,8 @@ def execute(case):
         labels.append("no_name")
     if len(case["switches"]) > 1:
         labels.append("multi_switch")
+    if case.get("org_here"):
+        labels.append("org_restated_after_data")
     if len(image) in EDGE_LENGTHS:
         labels.append("edge_length")
     entry_ok = {origin}
